@@ -25,18 +25,19 @@ import (
 // overlapping DAGs; differential oracle vs. each request run alone.
 
 type c20Case struct {
-	Pair        string `json:"pair"` // same | sub | diamond | sibling
-	Sel         string `json:"selector"`
-	WQ, WR      int    `json:"-"`
-	Workers     [2]int `json:"workers"`    // requestor's outgoing / responder's incoming maximum
-	Keys        string `json:"dedup_keys"` // none | same | different
-	N           int    `json:"requests"`
-	Gated       bool   `json:"event_level"`
-	PauseFirst  bool   `json:"first_request_paused_by_block_hook,omitempty"`    // the first request pauses itself at its first block and is never resumed
-	HoldFirst   bool   `json:"responders_first_send_stalls,omitempty"`          // the responder\'s first message stalls until all responses are queued behind it (they travel batched)
-	CancelFirst bool   `json:"first_request_cancelled_by_its_caller,omitempty"` // with HoldFirst: once the batched responses have arrived and the first request is stuck in its slow hook, its caller cancels it; the others go on
-	RespExt     bool   `json:"responder_hook_sends_extension,omitempty"`        // the responder's request hook sends extension data, so a request's first response may carry no link metadata
-	Tight       bool   `json:"responder_allowance_two_blocks,omitempty"`        // with HoldFirst: the responder may hold two blocks in memory per peer, so the first response stops early behind the stalled send and the others overlap with it
+	Pair            string `json:"pair"` // same | sub | diamond | sibling
+	Sel             string `json:"selector"`
+	WQ, WR          int    `json:"-"`
+	Workers         [2]int `json:"workers"`    // requestor's outgoing / responder's incoming maximum
+	Keys            string `json:"dedup_keys"` // none | same | different
+	N               int    `json:"requests"`
+	Gated           bool   `json:"event_level"`
+	PauseFirst      bool   `json:"first_request_paused_by_block_hook,omitempty"`            // the first request pauses itself at its first block and is never resumed
+	HoldFirst       bool   `json:"responders_first_send_stalls,omitempty"`                  // the responder\'s first message stalls until all responses are queued behind it (they travel batched)
+	CancelFirst     bool   `json:"first_request_cancelled_by_its_caller,omitempty"`         // with HoldFirst: once the batched responses have arrived and the first request is stuck in its slow hook, its caller cancels it; the others go on
+	RespExt         bool   `json:"responder_hook_sends_extension,omitempty"`                // the responder's request hook sends extension data, so a request's first response may carry no link metadata
+	RespPauseCancel bool   `json:"responder_pauses_first_then_caller_cancels_it,omitempty"` // the responder pauses the first request after its third block; the first request is behind on the requestor (slow hook at its second block), the others are issued then and wait at their first block; the first request's caller cancels it, it drains, then the others go on
+	Tight           bool   `json:"responder_allowance_two_blocks,omitempty"`                // with HoldFirst: the responder may hold two blocks in memory per peer, so the first response stops early behind the stalled send and the others overlap with it
 }
 
 func (c c20Case) String() string {
@@ -52,6 +53,9 @@ func (c c20Case) String() string {
 	}
 	if c.RespExt {
 		p += "; the responder's request hook sends extension data"
+	}
+	if c.RespPauseCancel {
+		p += "; the responder pauses the first request after three blocks, the requestor is behind on it, the other requests are issued and wait at their first block, the first request's caller cancels it and only then the others go on"
 	}
 	if c.CancelFirst {
 		p += "; the first request is cancelled by its caller while it is behind"
@@ -136,6 +140,29 @@ func c20Run(cfg vsched.Config, cs c20Case, only int) (*c20Obs, *vsched.Sched) {
 			})
 		}
 		gate := make(chan struct{})
+		gate2 := make(chan struct{})
+		if cs.RespPauseCancel && only < 0 {
+			nout := 0
+			r.GS.RegisterOutgoingBlockHook(func(p peer.ID, rd graphsync.RequestData, b graphsync.BlockData, ha graphsync.OutgoingBlockHookActions) {
+				if rd.ID() == harness.MkID(70) {
+					nout++
+					if nout == 3 {
+						ha.PauseResponse()
+					}
+				}
+			})
+			nblk := map[graphsync.RequestID]int{}
+			q.GS.RegisterIncomingBlockHook(func(p peer.ID, rd graphsync.ResponseData, b graphsync.BlockData, ha graphsync.IncomingBlockHookActions) {
+				nblk[rd.RequestID()]++
+				if rd.RequestID() == harness.MkID(70) {
+					if nblk[rd.RequestID()] == 2 {
+						<-gate
+					}
+				} else if nblk[rd.RequestID()] == 1 {
+					<-gate2
+				}
+			})
+		}
 		if cs.HoldFirst && only < 0 {
 			// ... and the first request's block hook is slow from its second block on: it stalls until the
 			// other requests had their chance (a slow consumer; the others must not depend on it)
@@ -177,10 +204,33 @@ func c20Run(cfg vsched.Config, cs c20Case, only int) (*c20Obs, *vsched.Sched) {
 				exts = append(exts, graphsync.ExtensionData{Name: graphsync.ExtensionDeDupByKey, Data: n})
 			}
 			res = append(res, q.Request(f, r.ID, ipld.Link(d.Links[roots[i]]), sel.Node, harness.MkID(byte(70+i)), exts...))
+			if cs.RespPauseCancel && only < 0 && i == 0 {
+				vsched.Quiesce()
+				if cs.Gated {
+					o.events += len(harness.RunEvents(f.Deliveries(q.ID, r.ID), 400))
+				}
+			}
 		}
 		vsched.Quiesce()
 		if cs.Gated {
-			o.events = len(harness.RunEvents(f.Deliveries(q.ID, r.ID), 400))
+			o.events += len(harness.RunEvents(f.Deliveries(q.ID, r.ID), 400))
+		}
+		if cs.RespPauseCancel && only < 0 {
+			res[0].Cancel()
+			vsched.Quiesce()
+			if cs.Gated {
+				o.events += len(harness.RunEvents(f.Deliveries(q.ID, r.ID), 400))
+			}
+			close(gate)
+			vsched.Quiesce()
+			if cs.Gated {
+				o.events += len(harness.RunEvents(f.Deliveries(q.ID, r.ID), 400))
+			}
+			close(gate2)
+			vsched.Quiesce()
+			if cs.Gated {
+				o.events += len(harness.RunEvents(f.Deliveries(q.ID, r.ID), 400))
+			}
 		}
 		if cs.HoldFirst {
 			f.Net.ReleaseHeld()
@@ -345,7 +395,7 @@ func c20Judge(cs c20Case, o *c20Obs) *core.Violation {
 		for _, k := range strings.Split(solo.store, ",") {
 			union[k] = true
 		}
-		if (cs.PauseFirst || cs.CancelFirst) && i == 0 {
+		if (cs.PauseFirst || cs.CancelFirst || cs.RespPauseCancel) && i == 0 {
 			continue // paused for good / cancelled: only the others are judged
 		}
 		got, want := o.reqs[i], solo.reqs[0]
@@ -368,6 +418,10 @@ func c20Judge(cs c20Case, o *c20Obs) *core.Violation {
 			if len(kinds) == 1 && kinds["later"] {
 				return v("present-entry-sent-ahead-of-the-deduplicated-block", fmt.Sprintf("%s lost %v: the responder listed each as present without bytes in a message that left before the message carrying the block for another request (wire %v)", name, got.missing, o.wire))
 			}
+			if len(kinds) == 1 && kinds["earlier"] && cs.RespPauseCancel {
+				// here the other request has drained everything it received before this one looked: not the read-before-stored order
+				return v("blocks-received-for-a-cancelled-request-lost-to-the-others", fmt.Sprintf("%s lost %v: each was sent earlier for the first request, which was cancelled by its caller and had finished draining what it had received before this request looked for the block locally (wire %v)", name, got.missing, o.wire))
+			}
 			if len(kinds) == 1 && kinds["earlier"] {
 				return v("deduplicated-block-read-before-the-other-request-stored-it", fmt.Sprintf("%s lost %v: each was sent earlier for another request, which had not verified and stored it when this request looked for it locally (wire %v)", name, got.missing, o.wire))
 			}
@@ -386,7 +440,7 @@ func c20Judge(cs c20Case, o *c20Obs) *core.Violation {
 		}
 	}
 	sort.Strings(uk)
-	if strings.Join(uk, ",") != o.store && !cs.PauseFirst && !cs.CancelFirst {
+	if strings.Join(uk, ",") != o.store && !cs.PauseFirst && !cs.CancelFirst && !cs.RespPauseCancel {
 		return v("stored-blocks-differ-from-solo-runs", fmt.Sprintf("the requestor stored %d blocks, the solo runs together %d", len(strings.Split(o.store, ",")), len(uk)))
 	}
 	return nil
@@ -413,6 +467,9 @@ func c20Cases(thorough bool) []c20Case {
 							out = append(out, c20Case{Pair: pair, Sel: sn, Workers: w, Keys: keys, N: n, HoldFirst: true, Tight: true})
 							if keys == "none" && (thorough || n == 2) {
 								out = append(out, c20Case{Pair: pair, Sel: sn, Workers: w, Keys: keys, N: n, HoldFirst: true, RespExt: true})
+							}
+							if keys != "different" && (thorough || n == 2) {
+								out = append(out, c20Case{Pair: pair, Sel: sn, Workers: w, Keys: keys, N: n, RespPauseCancel: true})
 							}
 							if keys != "different" && (thorough || n == 2) {
 								out = append(out, c20Case{Pair: pair, Sel: sn, Workers: w, Keys: keys, N: n, HoldFirst: true, CancelFirst: true})
